@@ -23,7 +23,8 @@ Definition kind_eqb (a b : kind) : bool :=
   end.
 
 Inductive custom := CNone | CTimestamp | CDuration | COpaque.
-Inductive ftype := TScalar (k : kind) | TEnum | TMsg (idx : nat) | TMap (kk vk : kind).
+Inductive ftype := TScalar (k : kind) | TEnum | TMsg (idx : nat) | TMap (kk vk : kind)
+  | TMapOther.   (* map whose value is a message or enum: outside the generator's feature set *)
 Inductive label := LSingular | LOptional | LRepeated.
 
 Record fdesc := {
